@@ -32,6 +32,8 @@ def stepC05 (ts : List String) : String :=
           | _, _ => none
         | ["l", q] => q.toNat?.map (fun q => step c05same s (.setLast q))
         | ["c"] => some (step c05same s .clean)
+        -- a sign fact of a stage point that is no longer new (behind the last point): refused before any record is made
+        | ["w", _, _, _] => some s
         | _ => none) (some {})
     match s with
     | some s => c05snap s
